@@ -103,7 +103,7 @@ Section PDB.
           end
         end
       else if kw record "ATOM" || kw record "HETATM" then
-        rc <- mapM float_of (split (col 30 54 line)) ;;
+        rc <- mapM float_of [col 30 38 line; col 38 46 line; col 46 54 line] ;;
         _ <- optional_float (col 54 60 line) pdb_parseLines_try2_caught pdb_parseLines_try2_handler ;;
         _ <- optional_float (col 60 66 line) pdb_parseLines_try3_caught pdb_parseLines_try3_handler ;;
         _ <- (if isblank (col 76 78 line)
